@@ -284,6 +284,8 @@ pub enum ConfigError {
         cluster_id: String,
         reason: &'static str,
     },
+    #[error("invalid sozu_id_header for the listener {address}: {reason}")]
+    InvalidSozuIdHeader { address: String, reason: String },
     #[error("invalid path {0:?}")]
     InvalidPath(PathBuf),
     #[error("listening address {0:?} is already used in the configuration")]
@@ -799,6 +801,22 @@ impl ListenerBuilder {
         Ok(Some(http_answers))
     }
 
+    /// The correlation header name is checked by `ConfigState` when the
+    /// listener is added (`validate_sozu_id_header`); a value it refuses must
+    /// not pass the loader: the listener would be missing from the state while
+    /// its frontends are added.
+    fn check_sozu_id_header(&self) -> Result<(), ConfigError> {
+        if let Some(name) = &self.sozu_id_header {
+            crate::state::validate_sozu_id_header(name).map_err(|e| {
+                ConfigError::InvalidSozuIdHeader {
+                    address: self.address.to_string(),
+                    reason: e.to_string(),
+                }
+            })?;
+        }
+        Ok(())
+    }
+
     /// Build the proto-side `answers` map for this listener.
     ///
     /// Merges, in order:
@@ -874,6 +892,7 @@ impl ListenerBuilder {
 
         let http_answers = self.get_http_answers()?;
         let answers = self.get_listener_answers()?;
+        self.check_sozu_id_header()?;
 
         let configuration = HttpListenerConfig {
             address: self.address.into(),
@@ -1035,6 +1054,7 @@ impl ListenerBuilder {
 
         let http_answers = self.get_http_answers()?;
         let answers = self.get_listener_answers()?;
+        self.check_sozu_id_header()?;
 
         if let Some(config) = config {
             self.assign_config_timeouts(config);
